@@ -280,7 +280,19 @@ pub fn gen_history<S: Sut>(seed: u64, cfg: Cfg, sweep: Option<Sweep>) -> Outcome
                 cmd.jump = JUMPS[rng.below(JUMPS.len())];
                 jumps_left -= 1;
             }
-            go!(Act::Gen { r, actor, cmd, old: rng.below(12) });
+            let burst = wide && cmd.k == "rm_key" && rng.chance(1, 2);
+            go!(Act::Gen { r, actor, cmd: cmd.clone(), old: rng.below(12) });
+            if burst {
+                // several keys removed in one go from one read of the map: removes do not advance the clock, so all of
+                // them carry the same context and a replica that has to park them holds one keyset of 5-8 keys
+                for _ in 0..4 + rng.below(4) {
+                    let mut c2 = cmd.clone();
+                    c2.a = vec![rand_key(&mut rng)];
+                    c2.src = "read_ctx".into();
+                    c2.stale = false;
+                    go!(Act::Gen { r, actor, cmd: c2, old: 0 });
+                }
+            }
         } else if choice < 8 || !cfg.merges || !S::HAS_MERGE {
             // delivery, restricted by policy
             let slow = policy == 4 && r == 0 && frac < 8;
